@@ -11,37 +11,11 @@ Open Scope nat_scope.
 (* ------------------------------------------------------------------------------------------------------------ *)
 (* the static walk: what resolve_target computes, as a pure function of target paths, flags and resolved-ness     *)
 (* ------------------------------------------------------------------------------------------------------------ *)
-Fixpoint mem_nat (x : nat) (l : list nat) : bool :=
-  match l with [] => false | y :: r => Nat.eqb x y || mem_nat x r end.
-
 Lemma mem_nat_In : forall x l, mem_nat x l = true <-> In x l.
 Proof.
   induction l; simpl. split; [discriminate | tauto].
   rewrite orb_true_iff, IHl, Nat.eqb_eq. split; intros [H|H]; auto.
 Qed.
-
-(* [vis]: the aliases this walk already went through (the real code marks them with the passed-through flag) *)
-Fixpoint walk (coll : list (string * nat)) (n : nat) (h : heap) (i : nat) (vis : list nat) : res unit :=
-  match n with
-  | 0 => Err EFuel
-  | S n' =>
-      match nth_error h i with
-      | Some (NAlias p tp None pa _) =>
-          if pa || mem_nat i vis then Err ECyc
-          else match static_get coll h tp with
-               | None => Err EBad
-               | Some None => Err (EARE p)
-               | Some (Some j) =>
-                   if Nat.eqb j i then Err ECyc
-                   else match nth_error h j with
-                        | None => Err EBad
-                        | Some (NAlias _ _ None _ _) => walk coll n' h j (i :: vis)
-                        | Some _ => Ok tt
-                        end
-               end
-      | _ => Err EBad
-      end
-  end.
 
 Lemma walk_vis_ext : forall coll n h i vis vis',
   (forall x, mem_nat x vis = mem_nat x vis') -> walk coll n h i vis = walk coll n h i vis'.
@@ -226,10 +200,10 @@ Section Direct.
       { unfold hh. apply (walk_flag coll n h i p tp w j [] [i]); auto; intros y; simpl; auto. }
       destruct (Haon hh j pj tpj paj wj HIh Hnjh) as [(A & B & C & D) | (e & He & Hh2)];
         destruct (rt hh j) as [h2 u]; simpl in *.
-      + subst u. destruct (Fin h2 B C (or_intror D)) as [F1 F2]. rewrite <- Hwf, <- Hw1. split; auto.
+      + rewrite A in *. destruct (Fin h2 B C (or_intror D)) as [F1 F2]. rewrite <- Hwf, <- Hw1. split; auto.
         intros HC _. apply F2. apply Hc1; auto. unfold hh. eapply Cl_update; eauto. intros; discriminate.
-      + subst u. rewrite <- Hwf, <- Hw1. simpl. split; auto; intros _ X; discriminate.
-    - apply nth_error_None in Hnj. rewrite (update_length _ h i (NAlias p tp None true w)) in Hjlen. lia.
+      + rewrite He in *. rewrite <- Hwf, <- Hw1. simpl. split; auto; intros _ X; discriminate.
+    - apply nth_error_None in Hnj. unfold hh in Hjlen. rewrite update_length in Hjlen. lia.
   Qed.
 
   Theorem resolve_target_d : forall n, d_spec n (resolve_target coll L n).
@@ -239,3 +213,517 @@ Section Direct.
     - simpl. apply resolve_body_d; auto. apply resolve_target_aon.
   Qed.
 End Direct.
+
+(* ------------------------------------------------------------------------------------------------------------ *)
+(* a failed resolution stays failed                                                                              *)
+(* ------------------------------------------------------------------------------------------------------------ *)
+Lemma Cl_weaken : forall coll (U U' : nat -> Prop) h, (forall j, U' j -> U j) -> Cl coll U h -> Cl coll U' h.
+Proof. unfold Cl. intros. eauto. Qed.
+
+(* a set of resolved aliases closed under the stored link never reaches an object *)
+Lemma chain_end_closed : forall (S : nat -> Prop) g,
+  (forall x, S x -> exists p tp k pa w, nth_error g x = Some (NAlias p tp (Some (RReal k)) pa w) /\ S k) ->
+  forall l x seen, S x -> chain_end l g (RReal x) seen = None.
+Proof.
+  intros S g Hcl. induction l; intros x seen Hx; simpl; auto.
+  destruct (Hcl x Hx) as (p & tp & k & pa & w & Hn & Hk). rewrite Hn.
+  destruct (mem_str p seen); auto.
+Qed.
+
+Inductive reach (g : heap) : nat -> nat -> Prop :=
+| reach_refl : forall x, reach g x x
+| reach_step : forall x k y, link_of g x = Some (RReal k) -> reach g k y -> reach g x y.
+
+Lemma no_stored_cycle : forall Lc g i j,
+  chains_complete_L Lc g = true -> link_of g i = Some (RReal j) -> j <> i -> reach g j i -> False.
+Proof.
+  intros Lc g i j Hc Hl Hji Hr.
+  set (S := fun x => exists k, link_of g x = Some (RReal k) /\ reach g k i).
+  assert (Hcl : forall x, S x -> exists p tp k pa w, nth_error g x = Some (NAlias p tp (Some (RReal k)) pa w) /\ S k).
+  { intros x (k & Hk & Hki). unfold link_of in Hk.
+    destruct (nth_error g x) as [[| p tp t pa w]|] eqn:E; try discriminate. subst t.
+    exists p, tp, k, pa, w. split; auto.
+    inversion Hki; subst.
+    - exists j. auto.
+    - exists k0. auto. }
+  assert (Sj : S j). { inversion Hr; subst. congruence. exists k. auto. }
+  unfold link_of in Hl. destruct (nth_error g i) as [[| p tp t pa w]|] eqn:E; try discriminate. subst t.
+  pose proof (forallb_nth _ _ _ _ _ Hc E) as X. simpl in X.
+  rewrite (chain_end_closed S g Hcl Lc j [p] Sj) in X. discriminate.
+Qed.
+
+Lemma link_none_unres : forall h i p tp t pa w, nth_error h i = Some (NAlias p tp t pa w) -> link_of h i = None -> t = None.
+Proof. unfold link_of. intros. rewrite H in H0. auto. Qed.
+
+Lemma resolved_link : forall h i, resolved_in h i -> link_of h i <> None.
+Proof. intros h i (p & tp & t & pa & w & E). unfold link_of. rewrite E. discriminate. Qed.
+
+Section Stable.
+  Variable coll : list (string * nat).
+  Variable Lc : nat.
+
+  (* an alias whose walk fails on [h] and that is nevertheless resolved on a later heap [g]: its stored chain in [g]
+     leads back to one of the aliases the walk had gone through *)
+  Lemma failed_never_resolved : forall n h g i vis e,
+    R h g -> Cl coll (fun j => link_of h j = None) g -> chains_complete_L Lc g = true ->
+    walk coll n h i vis = Err e -> e <> EFuel -> e <> EBad -> resolved_in g i ->
+    exists v, In v vis /\ reach g i v /\ resolved_in g v.
+  Proof.
+    induction n; intros h g i vis e HR HC Hcc Hw Hf Hb Hres; simpl in Hw. inversion Hw; congruence.
+    destruct (nth_error h i) as [[| p tp [t|] pa w]|] eqn:Hn; try (inversion Hw; congruence).
+    assert (Hli : link_of h i = None) by (unfold link_of; rewrite Hn; auto).
+    destruct (R_nth_alias _ _ _ _ _ _ _ _ HR Hn) as (t' & Hg & Ht').
+    destruct Hres as (p0 & tp0 & t0 & pa0 & w0 & Hg0). rewrite Hg in Hg0. inversion Hg0; subst p0 tp0 t' pa0 w0. clear Hg0.
+    assert (Hres : resolved_in g i) by (red; eauto 10).
+    destruct pa.
+    { destruct Ht' as [X | [_ X]]; discriminate. }
+    simpl in Hw. destruct (mem_nat i vis) eqn:Hm.
+    { exists i. split. apply mem_nat_In; auto. split; auto. constructor. }
+    destruct (HC i p tp t0 false w Hli Hg) as (k & Hk & Etk & Hki & Hkres).
+    rewrite (static_get_R coll h g tp HR) in Hk. rewrite Hk in Hw.
+    destruct (Nat.eqb k i) eqn:Eki. { apply Nat.eqb_eq in Eki. congruence. }
+    destruct (nth_error h k) as [[| pk tpk [tk|] pak wk]|] eqn:Hnk; try (inversion Hw; congruence).
+    assert (Hlk : link_of g i = Some (RReal k)) by (unfold link_of; rewrite Hg; congruence).
+    assert (Hresk : resolved_in g k).
+    { destruct Hkres as [(pk' & c & ms & Hok) | X]; auto.
+      destruct (R_nth_alias _ _ _ _ _ _ _ _ HR Hnk) as (tk' & Hgk & _). congruence. }
+    destruct (IHn h g k (i :: vis) e HR HC Hcc Hw Hf Hb Hresk) as (v & Hv & Hrv & Hresv).
+    destruct Hv as [<- | Hv].
+    - exfalso. eapply (no_stored_cycle Lc g i k); eauto.
+    - exists v. split; auto. split; auto. econstructor; eauto.
+  Qed.
+
+  (* ... hence the walk fails in the same way on every later heap on which the alias is still unresolved *)
+  Lemma walk_stable : forall n h g i vis e,
+    R h g -> Cl coll (fun j => link_of h j = None) g -> chains_complete_L Lc g = true ->
+    walk coll n h i vis = Err e -> e <> EFuel -> e <> EBad ->
+    link_of g i = None -> (forall v, In v vis -> link_of g v = None) ->
+    walk coll n g i vis = Err e.
+  Proof.
+    induction n; intros h g i vis e HR HC Hcc Hw Hf Hb Hli Hvis; simpl in Hw |- *. inversion Hw; congruence.
+    destruct (nth_error h i) as [[| p tp [t|] pa w]|] eqn:Hn; try (inversion Hw; congruence).
+    destruct (R_nth_alias _ _ _ _ _ _ _ _ HR Hn) as (t' & Hg & _). rewrite Hg.
+    rewrite (link_none_unres _ _ _ _ _ _ _ Hg Hli).
+    destruct (pa || mem_nat i vis); auto.
+    rewrite (static_get_R coll h g tp HR).
+    destruct (static_get coll h tp) as [[j|]|]; auto.
+    destruct (Nat.eqb j i); auto.
+    destruct (nth_error h j) as [[| pj tpj [tj|] paj wj]|] eqn:Hnj; try (inversion Hw; congruence).
+    destruct (R_nth_alias _ _ _ _ _ _ _ _ HR Hnj) as (tj' & Hgj & _). rewrite Hgj.
+    destruct tj' as [tj'|].
+    - exfalso.
+      assert (Hresj : resolved_in g j) by (red; eauto 10).
+      destruct (failed_never_resolved n h g j (i :: vis) e HR HC Hcc Hw Hf Hb Hresj) as (v & Hv & _ & Hresv).
+      apply (resolved_link _ _ Hresv). destruct Hv as [<- | Hv]; auto.
+    - apply (IHn h g j (i :: vis) e); auto.
+      + unfold link_of. rewrite Hgj. auto.
+      + intros v [<- | Hv]; auto.
+  Qed.
+End Stable.
+
+(* ------------------------------------------------------------------------------------------------------------ *)
+(* one pass over the collection, then another one on any later heap: the second is quiet                         *)
+(* ------------------------------------------------------------------------------------------------------------ *)
+Arguments walk : simpl never.
+
+Lemma acc_eta : forall a, a = mkAcc (a_heap a) (a_seen a) (a_resolved a) (a_unresolved a).
+Proof. destruct a; auto. Qed.
+
+Section Pass.
+  Variable coll : list (string * nat).
+  Variable h0 : heap.
+
+  Definition U0 (j : nat) : Prop := link_of h0 j = None.
+  Definition PInv (h : heap) : Prop := Inv coll (fuelL h0) h /\ R h0 h /\ Cl coll U0 h.
+
+  Lemma PInv_fuel : forall h, PInv h -> fuelL h = fuelL h0 /\ fuelN h = fuelN h0.
+  Proof. intros h (_ & HR & _). unfold fuelL, fuelN. rewrite (R_count_aliases _ _ HR). auto. Qed.
+
+  Lemma PInv_U : forall h g, PInv h -> Cl coll U0 g -> Cl coll (fun j => link_of h j = None) g.
+  Proof.
+    intros h g (_ & HR & _) HC. eapply Cl_weaken; [|exact HC]. intros j Hj. unfold U0.
+    destruct (link_of h0 j) eqn:E; auto. rewrite (R_link _ _ _ _ HR E) in Hj. discriminate.
+  Qed.
+
+  Definition real_err (e : err) : Prop := e = ECyc \/ exists q, e = EARE q.
+
+  Lemma visit_facts : forall a m p p' tp pa w,
+    PInv (a_heap a) -> nth_error (a_heap a) m = Some (NAlias p' tp None pa w) ->
+    let X := visit_alias coll a m p in
+    snd X = Ok tt /\ a_seen (fst X) = a_seen a /\ PInv (a_heap (fst X)) /\ R (a_heap a) (a_heap (fst X)) /\
+    ((walk coll (fuelN h0) (a_heap a) m [] = Ok tt /\ resolved_in (a_heap (fst X)) m /\
+      a_unresolved (fst X) = a_unresolved a /\ a_resolved (fst X) = p :: a_resolved a) \/
+     (exists e, walk coll (fuelN h0) (a_heap a) m [] = Err e /\ real_err e /\ a_heap (fst X) = a_heap a /\
+        a_resolved (fst X) = a_resolved a /\
+        a_unresolved (fst X) = match e with EARE _ => p :: a_unresolved a | _ => a_unresolved a end)).
+  Proof.
+    intros a m p p' tp pa w HP Hn. pose proof HP as (HI & HR & HC). pose proof HI as (Hw & _).
+    destruct (PInv_fuel _ HP) as [FL FN].
+    pose proof (resolve_top_total coll (a_heap a) m p' tp pa w Hw Hn) as Tot. cbv zeta in Tot.
+    destruct Tot as (Hout & _).
+    unfold visit_alias. unfold resolve_top in *. rewrite FL, FN in *.
+    pose proof (resolve_target_aon coll (fuelL h0) (fuelN h0) (a_heap a) m p' tp pa w HI Hn) as Haon.
+    destruct (resolve_target_d coll (fuelL h0) U0 (fuelN h0) (a_heap a) m p' tp pa w HI Hn) as [Hwk Hcl].
+    destruct (resolve_target coll (fuelL h0) (fuelN h0) (a_heap a) m) as [h1 r]. cbn [fst snd] in *.
+    destruct Haon as [(A & B & C & D) | (e & He & Hh)]; cbn [fst snd] in *.
+    - rewrite A in *. symmetry in Hwk. assert (HP1 : PInv h1) by (split; auto; split; [eapply R_trans; eauto | auto]).
+      destruct D as (pm & tpm & tm & pam & wm & Hm).
+      assert (Hcc : chains_complete h1 = true).
+      { unfold chains_complete. destruct (PInv_fuel _ HP1) as [F1 _]. rewrite F1. apply B. }
+      destruct (complete_deref coll h1 m pm tpm tm pam wm Hcc Hm) as (o & Ed & _).
+      rewrite Ed. simpl.
+      split; auto. split; auto. split; auto. split; auto. left. split; auto. split; [red; eauto 10 | auto].
+    - rewrite He in *. subst h1. symmetry in Hwk.
+      destruct Hout as [[X _] | [[q X] | X]]; try discriminate; inversion X; subst e; simpl.
+      + split; auto. split; auto. split; auto. split. apply R_refl. right. exists (EARE q).
+        split; auto. split; auto. right. eauto.
+      + split; auto. split; auto. split; auto. split. apply R_refl. right. exists ECyc.
+        split; auto. split; auto. left. auto.
+  Qed.
+
+  Lemma visit_quiet : forall b m p p' tp pa w e,
+    PInv (a_heap b) -> nth_error (a_heap b) m = Some (NAlias p' tp None pa w) ->
+    walk coll (fuelN h0) (a_heap b) m [] = Err e ->
+    visit_alias coll b m p =
+      (mkAcc (a_heap b) (a_seen b) (a_resolved b) (match e with EARE _ => p :: a_unresolved b | _ => a_unresolved b end), Ok tt).
+  Proof.
+    intros b m p p' tp pa w e HP Hn Hw.
+    destruct (visit_facts b m p p' tp pa w HP Hn) as (A & B & _ & _ & D).
+    destruct (visit_alias coll b m p) as [b1 r]. simpl in *. subst r. f_equal.
+    destruct D as [(X & _) | (e' & X & _ & D1 & D2 & D3)]. congruence.
+    assert (e' = e) by congruence. subst e'. rewrite (acc_eta b1). congruence.
+  Qed.
+
+  Definition mono_unres (a a' : acc) : Prop := forall x, In x (a_unresolved a) -> In x (a_unresolved a').
+
+  (* the resolved list only grows, and the heap only changes when it does *)
+  Definition prog (a a' : acc) : Prop :=
+    List.length (a_resolved a) <= List.length (a_resolved a') /\
+    (List.length (a_resolved a') = List.length (a_resolved a) -> a_heap a' = a_heap a).
+
+  Lemma prog_refl : forall a, prog a a. Proof. split; auto. Qed.
+  Lemma prog_trans : forall a b c, prog a b -> prog b c -> prog a c.
+  Proof. intros a b c [A1 A2] [B1 B2]. split. lia. intros E. rewrite B2 by lia. apply A2. lia. Qed.
+
+  Definition quiet_run (run : acc -> acc * res unit) (a a' : acc) : Prop :=
+    forall g b, R (a_heap a') g -> PInv g -> a_heap b = g -> a_seen b = a_seen a ->
+      exists us, run b = (mkAcc g (a_seen a') (a_resolved b) us, Ok tt) /\
+                 (forall x, In x us -> In x (a_unresolved b) \/ In x (a_unresolved a')).
+
+  Definition ls_result (run : acc -> acc * res unit) (a : acc) : Prop :=
+    forall a' r, run a = (a', r) ->
+      (forall e, r = Err e -> e = EFuel \/ e = EBad) /\
+      (r = Ok tt -> PInv (a_heap a') /\ R (a_heap a) (a_heap a') /\ mono_unres a a' /\ prog a a' /\ quiet_run run a a').
+
+  Definition ls_spec (recur : acc -> nat -> acc * res unit) : Prop :=
+    forall a o, PInv (a_heap a) -> ls_result (fun x => recur x o) a.
+
+  Lemma members_loop_ls : forall recur, ls_spec recur ->
+    forall ms a, PInv (a_heap a) -> ls_result (fun x => members_loop coll recur x ms) a.
+  Proof.
+    intros recur Hrec. induction ms as [|[nm m] rest]; intros a HP a' r Hrun; simpl in Hrun.
+    - inversion Hrun; subst. split. intros; discriminate. intros _.
+      split; auto. split. apply R_refl. split. red; auto. split. apply prog_refl.
+      intros g b HR HPg Hb Hs. subst g. exists (a_unresolved b). simpl. split; auto.
+      rewrite (acc_eta b) at 1. rewrite Hs. auto.
+    - destruct (nth_error (a_heap a) m) as [[mp c mms | p tpm tgt pam wild]|] eqn:Hn.
+      + (* an object member *)
+        destruct (c && negb (mem_str mp (a_seen a))) eqn:Hcond.
+        * destruct (recur a m) as [a1 r1] eqn:Er.
+          destruct (Hrec a m HP a1 r1 Er) as [He1 Hok1].
+          destruct r1 as [u1 | e1].
+          2:{ inversion Hrun; subst. split. intros e X. inversion X; subst. auto. intros X; discriminate. }
+          destruct u1. destruct (Hok1 eq_refl) as (HP1 & HR1 & Hm1 & Hp1 & Hq1).
+          destruct (IHrest a1 HP1 a' r Hrun) as [He2 Hok2]. split; auto.
+          intros Er2. destruct (Hok2 Er2) as (HP2 & HR2 & Hm2 & Hp2 & Hq2).
+          split; auto. split. eapply R_trans; eauto. split. red; auto. split. eapply prog_trans; eauto.
+          intros g b HRg HPg Hb Hs. subst g. simpl.
+          assert (HRag : R (a_heap a) (a_heap b)) by (eapply R_trans; [eapply R_trans; eauto | auto]).
+          rewrite (R_nth_obj _ _ _ _ _ _ HRag Hn). rewrite Hs, Hcond.
+          destruct (Hq1 (a_heap b) b (R_trans _ _ _ HR2 HRg) HPg eq_refl Hs) as (us1 & Eb1 & Hin1). rewrite Eb1.
+          destruct (Hq2 (a_heap b) (mkAcc (a_heap b) (a_seen a1) (a_resolved b) us1) HRg HPg eq_refl eq_refl) as (us & Eb2 & Hin2).
+          exists us. split; [exact Eb2|]. intros x Hx. destruct (Hin2 x Hx) as [X | X]; auto.
+          simpl in X. destruct (Hin1 x X); auto.
+        * destruct (IHrest a HP a' r Hrun) as [He2 Hok2]. split; auto.
+          intros Er2. destruct (Hok2 Er2) as (HP2 & HR2 & Hm2 & Hp2 & Hq2). split; auto. split; auto. split; auto. split; auto.
+          intros g b HRg HPg Hb Hs. subst g. simpl.
+          assert (HRag : R (a_heap a) (a_heap b)) by (eapply R_trans; eauto).
+          rewrite (R_nth_obj _ _ _ _ _ _ HRag Hn). rewrite Hs, Hcond.
+          apply Hq2; auto.
+      + (* an alias member *)
+        destruct (wild || match tgt with Some _ => true | None => false end) eqn:Hcond.
+        * destruct (IHrest a HP a' r Hrun) as [He2 Hok2]. split; auto.
+          intros Er2. destruct (Hok2 Er2) as (HP2 & HR2 & Hm2 & Hp2 & Hq2). split; auto. split; auto. split; auto. split; auto.
+          intros g b HRg HPg Hb Hs. subst g. simpl.
+          assert (HRag : R (a_heap a) (a_heap b)) by (eapply R_trans; eauto).
+          destruct (R_nth_alias _ _ _ _ _ _ _ _ HRag Hn) as (t' & Hg & Ht').
+          rewrite Hg.
+          assert (Hc' : wild || match t' with Some _ => true | None => false end = true).
+          { destruct wild; auto. simpl in *. destruct tgt; try discriminate.
+            destruct Ht' as [-> | [X _]]; auto. discriminate. }
+          rewrite Hc'. apply Hq2; auto.
+        * apply orb_false_iff in Hcond. destruct Hcond as [Hwild Htgt]. subst wild.
+          destruct tgt; try discriminate.
+          destruct (visit_facts a m p p tpm pam false HP Hn) as (V1 & V2 & V3 & V4 & V5).
+          destruct (visit_alias coll a m p) as [a1 r1] eqn:Ev. simpl in V1, V2, V3, V4, V5. subst r1.
+          destruct (IHrest a1 V3 a' r Hrun) as [He2 Hok2]. split; auto.
+          intros Er2. destruct (Hok2 Er2) as (HP2 & HR2 & Hm2 & Hp2 & Hq2).
+          assert (Hm1 : mono_unres a a1).
+          { red. intros x Hx. destruct V5 as [(_ & _ & E & _) | (e & _ & _ & _ & _ & E)]; rewrite E; auto.
+            destruct e; simpl; auto. }
+          assert (Hp1 : prog a a1).
+          { destruct V5 as [(_ & _ & _ & E) | (e & _ & _ & E1 & E2 & _)]; split; try rewrite E; try rewrite E2; simpl; auto; intros; lia. }
+          split; auto. split. eapply R_trans; eauto. split. red; auto. split. eapply prog_trans; eauto.
+          intros g b HRg HPg Hb Hs. subst g. simpl.
+          assert (HR1g : R (a_heap a1) (a_heap b)) by (eapply R_trans; eauto).
+          assert (HRag : R (a_heap a) (a_heap b)) by (eapply R_trans; eauto).
+          destruct (R_nth_alias _ _ _ _ _ _ _ _ HRag Hn) as (t' & Hg & _).
+          rewrite Hg. simpl. destruct t' as [t'|].
+          -- apply Hq2; auto. congruence.
+          -- destruct V5 as [(_ & Hres & _) | (e & Hwk & Hreal & Hh1 & Hr1 & Hu1)].
+             { exfalso. destruct Hres as (p1 & tp1 & t1 & pa1 & w1 & Hm1').
+               destruct (R_nth_alias _ _ _ _ _ _ _ _ HR1g Hm1') as (t2 & Hg2 & Ht2). rewrite Hg in Hg2.
+               inversion Hg2; subst. destruct Ht2 as [X | [X _]]; discriminate. }
+             assert (Hwg : walk coll (fuelN h0) (a_heap b) m [] = Err e).
+             { apply (walk_stable coll (fuelL h0) (fuelN h0) (a_heap a) (a_heap b) m [] e); auto.
+               - apply (PInv_U _ _ HP). apply HPg.
+               - apply HPg.
+               - destruct Hreal as [-> | [q ->]]; discriminate.
+               - destruct Hreal as [-> | [q ->]]; discriminate.
+               - unfold link_of. rewrite Hg. auto.
+               - intros v []. }
+             rewrite (visit_quiet b m p p tpm pam false e HPg Hg Hwg).
+             set (b1 := mkAcc (a_heap b) (a_seen b) (a_resolved b) (match e with EARE _ => p :: a_unresolved b | _ => a_unresolved b end)).
+             assert (Hs1 : a_seen b1 = a_seen a1) by (simpl; congruence).
+             destruct (Hq2 (a_heap b) b1 HRg HPg eq_refl Hs1) as (us & Eb2 & Hin2).
+             exists us. split; [exact Eb2|]. intros x Hx. destruct (Hin2 x Hx) as [X | X]; auto.
+             simpl in X. destruct e; auto. destruct X as [<- | X]; auto.
+             right. apply Hm2. rewrite Hu1. left; auto.
+      + inversion Hrun; subst. split. intros e X. inversion X; subst. auto. intros X; discriminate.
+  Qed.
+  Lemma rma_ls : forall d, ls_spec (rma coll d).
+  Proof.
+    induction d; intros a o HP a' r Hrun.
+    - simpl in Hrun. inversion Hrun; subst. split. intros e X. inversion X; auto. intros X; discriminate.
+    - simpl in Hrun. destruct (nth_error (a_heap a) o) as [[path c ms | ]|] eqn:Hn.
+      2,3: inversion Hrun; subst; split; [intros e X; inversion X; auto | intros X; discriminate].
+      set (a0 := mkAcc (a_heap a) (path :: a_seen a) (a_resolved a) (a_unresolved a)) in *.
+      destruct (members_loop_ls (rma coll d) IHd ms a0 HP a' r Hrun) as [He Hok]. split; auto.
+      intros Er. destruct (Hok Er) as (HP2 & HR2 & Hm2 & Hp2 & Hq2).
+      split; auto. split; auto. split; auto. split; auto.
+      intros g b HRg HPg Hb Hs. subst g. simpl.
+      rewrite (R_nth_obj _ _ _ _ _ _ (R_trans _ _ _ HR2 HRg) Hn).
+      destruct (Hq2 (a_heap b) (mkAcc (a_heap b) (path :: a_seen b) (a_resolved b) (a_unresolved b)) HRg HPg eq_refl)
+        as (us & Eb & Hin). simpl. congruence.
+      exists us. split; auto.
+  Qed.
+
+  Opaque rma.
+  Lemma pass_modules_ls : forall mods h unres rsv h' r,
+    PInv h -> pass_modules coll h mods unres rsv = (h', r) ->
+    (forall e, r = Err e -> e = EFuel \/ e = EBad) /\
+    (forall u rs, r = Ok (u, rs) ->
+       PInv h' /\ R h h' /\ (forall x, In x unres -> In x u) /\
+       List.length rsv <= List.length rs /\ (List.length rs = List.length rsv -> h' = h) /\
+       forall g unres2 rsv2, R h' g -> PInv g ->
+         exists u2, pass_modules coll g mods unres2 rsv2 = (g, Ok (u2, rsv2)) /\
+                    (forall x, In x u2 -> In x unres2 \/ In x u)).
+  Proof.
+    induction mods as [|[nm m] mods]; intros h unres rsv h' r HP Hrun; simpl in Hrun.
+    - inversion Hrun; subst. split. intros; discriminate. intros u rs X. inversion X; subst.
+      split; auto. split. apply R_refl. split; auto. split; auto. split; auto.
+      intros g unres2 rsv2 _ _. exists unres2. simpl. auto.
+    - set (a0 := mkAcc h [] rsv unres) in *.
+      destruct (rma coll (S (List.length h)) a0 m) as [a r1] eqn:Er.
+      destruct (rma_ls (S (List.length h)) a0 m HP a r1 Er) as [He1 Hok1].
+      destruct r1 as [u1 | e1].
+      2:{ inversion Hrun; subst. split. intros e X. inversion X; subst. apply (He1 _ eq_refl). intros u rs X; discriminate. }
+      destruct u1. destruct (Hok1 eq_refl) as (HP1 & HR1 & Hm1 & [Hp1 Hp1'] & Hq1). simpl in HR1, Hp1, Hp1'.
+      destruct (IHmods (a_heap a) (a_unresolved a) (a_resolved a) h' r HP1 Hrun) as [He2 Hok2]. split; auto.
+      intros u rs Eu. destruct (Hok2 u rs Eu) as (HP2 & HR2 & Hm2 & Hl2 & Hh2 & Hq2).
+      split; auto. split. eapply R_trans; eauto. split. intros x Hx. apply Hm2. apply Hm1. auto.
+      split. lia. split. intros El. rewrite Hh2 by lia. apply Hp1'. lia.
+      intros g unres2 rsv2 HRg HPg. simpl.
+      assert (HRhg : R h g) by (eapply R_trans; [eapply R_trans; eauto | auto]).
+      rewrite (R_length _ _ HRhg).
+      destruct (Hq1 g (mkAcc g [] rsv2 unres2) (R_trans _ _ _ HR2 HRg) HPg eq_refl eq_refl) as (us & Eb & Hin).
+      rewrite Eb. simpl.
+      destruct (Hq2 g us rsv2 HRg HPg) as (u2 & Eb2 & Hin2). exists u2. split; auto.
+      intros x Hx. destruct (Hin2 x Hx) as [X | X]; auto. destruct (Hin x X) as [Y | Y]; auto.
+  Qed.
+
+  Transparent rma.
+
+  (* the loop of resolve_aliases: whatever pass ends it, a further pass over the collection changes nothing and
+     reports the same unresolved aliases *)
+  Lemma ra_loop_fix : forall k h prev it h' r,
+    PInv h -> unres_count h + 2 <= k -> ra_loop coll k h prev it = (h', r) ->
+    exists u it', r = Ok (u, it') /\ PInv h' /\ one_pass coll h' = (h', Ok (u, [])).
+  Proof.
+    induction k; intros h prev it h' r HP Hk Hrun. lia.
+    simpl in Hrun. pose proof HP as ((Hw & _) & _).
+    destruct (one_pass_spec coll h Hw) as (HPo & Hg & _ & Hac).
+    destruct (one_pass coll h) as [h1 r1] eqn:E1. simpl in HPo, Hg, Hac. unfold one_pass in E1.
+    destruct (pass_modules_ls coll h [] [] h1 r1 HP E1) as [He1 Hok1].
+    destruct r1 as [[unres rsv] | e].
+    2:{ exfalso. destruct Hg as [G1 G2]. destruct (He1 e eq_refl); subst; congruence. }
+    destruct (Hok1 unres rsv eq_refl) as (HP1 & HR1 & _ & _ & Hsame & Hq).
+    specialize (Hac unres rsv eq_refl).
+    destruct unres as [|u0 us].
+    { inversion Hrun; subst. exists [], (S it). split; auto. split; auto.
+      destruct (Hq h' [] [] (R_refl _) HP1) as (u2 & Eu2 & Hin2). unfold one_pass. rewrite Eu2.
+      destruct u2 as [|x u2]; auto. destruct (Hin2 x (or_introl eq_refl)) as [[] | []]. }
+    destruct (is_nil rsv && set_eq (u0 :: us) prev) eqn:Ecase.
+    { inversion Hrun; subst. apply andb_true_iff in Ecase. destruct Ecase as [En _].
+      destruct rsv; try discriminate. rewrite (Hsame eq_refl) in *.
+      exists (u0 :: us), (S it). split; auto. }
+    destruct (R_unres _ _ HR1) as [Hle Heq].
+    destruct (Nat.eq_dec (unres_count h1) (unres_count h)) as [Hsm | Hless].
+    - (* nothing changed: the next pass repeats this one and ends the loop *)
+      specialize (Heq Hsm). subst h1.
+      assert (rsv = []) by (destruct rsv; simpl in Hac; [auto | lia]). subst rsv.
+      destruct k as [|k']. lia.
+      simpl in Hrun. unfold one_pass in Hrun. rewrite E1 in Hrun. rewrite set_eq_refl in Hrun. simpl in Hrun.
+      inversion Hrun; subst. exists (u0 :: us), (S (S it)). split; auto.
+    - apply (IHk h1 (u0 :: us) (S it) h' r); auto. lia.
+  Qed.
+End Pass.
+
+(* ------------------------------------------------------------------------------------------------------------ *)
+(* the fixpoint theorem                                                                                          *)
+(* ------------------------------------------------------------------------------------------------------------ *)
+Theorem resolve_aliases_fixpoint : forall coll h,
+  wf coll h = true -> direct coll h = true -> chains_complete h = true -> unique_paths h = true ->
+  let h' := fst (resolve_aliases coll h) in
+  exists u it,
+    resolve_aliases coll h = (h', Ok (u, it)) /\
+    one_pass coll h' = (h', Ok (u, [])) /\
+    exists it', resolve_aliases coll h' = (h', Ok (u, it')) /\ it' <= 2.
+Proof.
+  intros coll h Hw Hd Hc Hu. cbv zeta.
+  assert (HP : PInv coll h h).
+  { split; [|split].
+    - split; auto. split; auto. split; auto. split; auto. unfold fuelL. lia.
+    - apply R_refl.
+    - intros j p tp t pa w Uj Hn. unfold U0, link_of in Uj. rewrite Hn in Uj. discriminate. }
+  destruct (resolve_aliases coll h) as [h' r] eqn:E. unfold resolve_aliases in E.
+  assert (Hk : unres_count h + 2 <= count_aliases h + 2) by (pose proof (unres_le_count h); lia).
+  destruct (ra_loop_fix coll h _ h [] 0 h' r HP Hk E) as (u & it & -> & HP' & Hq).
+  simpl. exists u, it. split; auto. split; auto.
+  pose proof HP' as ((Hw' & _) & _).
+  exact (fixpoint_after_quiet_pass coll h' u [] Hw' Hq).
+Qed.
+
+(* and no exception leaves resolve_aliases on such heaps; the outcome of every single resolve_target is the static walk *)
+Theorem resolve_outcome_static : forall coll h i p tp pa w,
+  wf coll h = true -> direct coll h = true -> chains_complete h = true -> unique_paths h = true ->
+  nth_error h i = Some (NAlias p tp None pa w) ->
+  snd (resolve_top coll h i) = walk coll (fuelN h) h i [].
+Proof.
+  intros coll h i p tp pa w Hw Hd Hc Hu Hn. unfold resolve_top.
+  assert (HI : Inv coll (fuelL h) h).
+  { split; auto. split; auto. split; auto. split; auto. unfold fuelL. lia. }
+  destruct (resolve_target_d coll (fuelL h) (fun _ => True) (fuelN h) h i p tp pa w HI Hn) as [A _]. exact A.
+Qed.
+
+(* a failed resolve_target fails in the same way, and changes nothing, on the heap resolve_aliases() leaves behind
+   (whatever was resolved in between) *)
+Theorem failure_is_stable : forall coll h i p tp pa w e,
+  wf coll h = true -> direct coll h = true -> chains_complete h = true -> unique_paths h = true ->
+  nth_error h i = Some (NAlias p tp None pa w) ->
+  snd (resolve_top coll h i) = Err e ->
+  let g := fst (resolve_aliases coll h) in
+  resolve_top coll g i = (g, Err e).
+Proof.
+  intros coll h i p tp pa w e Hw Hd Hc Hu Hn He. cbv zeta.
+  assert (HP : PInv coll h h).
+  { split; [|split].
+    - split; auto. split; auto. split; auto. split; auto. unfold fuelL. lia.
+    - apply R_refl.
+    - intros j pj tpj t paj wj Uj Hj. unfold U0, link_of in Uj. rewrite Hj in Uj. discriminate. }
+  destruct (resolve_aliases coll h) as [g r] eqn:E. unfold resolve_aliases in E.
+  assert (Hk : unres_count h + 2 <= count_aliases h + 2) by (pose proof (unres_le_count h); lia).
+  destruct (ra_loop_fix coll h _ h [] 0 g r HP Hk E) as (u & it & -> & HPg & _). simpl.
+  pose proof HPg as (HIg & HRg & HCg). destruct (PInv_fuel _ _ _ HPg) as [FL FN].
+  assert (Hreal : e <> EFuel /\ e <> EBad).
+  { pose proof (resolve_top_total coll h i p tp pa w Hw Hn) as Tot. cbv zeta in Tot. destruct Tot as (Hout & _).
+    rewrite He in Hout. destruct Hout as [[X _] | [[q X] | X]]; inversion X; subst; split; discriminate. }
+  rewrite (resolve_outcome_static coll h i p tp pa w Hw Hd Hc Hu Hn) in He.
+  destruct (R_nth_alias _ _ _ _ _ _ _ _ HRg Hn) as (t' & Hg & _).
+  assert (HCg' : Cl coll (fun j => link_of h j = None) g) by (apply (PInv_U coll h h g HP HCg)).
+  assert (Hcc : chains_complete_L (fuelL h) g = true) by apply HIg.
+  destruct t' as [t'|].
+  { exfalso. assert (Hres : resolved_in g i) by (red; eauto 10).
+    destruct (failed_never_resolved coll (fuelL h) (fuelN h) h g i [] e HRg HCg' Hcc He (proj1 Hreal) (proj2 Hreal) Hres)
+      as (v & [] & _). }
+  assert (Hwg : walk coll (fuelN h) g i [] = Err e).
+  { apply (walk_stable coll (fuelL h) (fuelN h) h g i [] e); auto; try tauto.
+    unfold link_of. rewrite Hg. auto. intros v []. }
+  unfold resolve_top. rewrite FL, FN.
+  destruct (resolve_target_d coll (fuelL h) (fun _ => True) (fuelN h) g i p tp pa w HIg Hg) as [A _].
+  destruct (resolve_target_aon coll (fuelL h) (fuelN h) g i p tp pa w HIg Hg) as [(B & _) | (e' & B & C)];
+    destruct (resolve_target coll (fuelL h) (fuelN h) g i) as [g1 r1]; simpl in *; congruence.
+Qed.
+
+Example fixpoint_nonvacuous :
+  wf w_plain_coll w_plain_heap = true /\ direct w_plain_coll w_plain_heap = true /\
+  chains_complete w_plain_heap = true /\ unique_paths w_plain_heap = true /\
+  resolve_aliases w_plain_coll w_plain_heap = (fst (resolve_aliases w_plain_coll w_plain_heap), Ok (["p.z"], 2)) /\
+  fst (resolve_aliases w_plain_coll w_plain_heap) <> w_plain_heap /\
+  walk w_plain_coll (fuelN w_plain_heap) w_plain_heap 5 [] = Err ECyc /\
+  walk w_plain_coll (fuelN w_plain_heap) w_plain_heap 1 [] = Ok tt.
+Proof. vm_compute. repeat split; auto. discriminate. Qed.
+
+
+(* ------------------------------------------------------------------------------------------------------------ *)
+(* unique_paths is a real hypothesis, and its failure is reachable                                               *)
+(* ------------------------------------------------------------------------------------------------------------ *)
+(* {"p": "from p.a import x\nfrom p.b import *", "p.a": "def x(): ...", "p.b": "from p.c import *", "p.c": "from p import *"}
+   as loaded (wildcards expanded): the wildcard import in p re-binds x and replaces the alias p.x (node 12, detached,
+   still the stored target of p.c.x) by a new alias p.x (node 1).  Every stored link leads to the function p.a.x,
+   node by node; but the chain of the new p.x passes through the old one, which has the same path. *)
+Definition w_dup_coll : list (string * nat) := [("p", 0)].
+Definition w_dup_heap : heap :=
+  [ NObj "p" true [("x", 1); ("a", 2); ("c", 4); ("b", 7); ("p/b/*", 9)];
+    NAlias "p.x" ["p"; "b"; "x"] (Some (RReal 8)) false false;
+    NObj "p.a" true [("x", 3)];
+    NObj "p.a.x" false [];
+    NObj "p.c" true [("x", 5); ("p/b/*", 6)];
+    NAlias "p.c.x" ["p"; "x"] (Some (RReal 12)) false false;
+    NAlias "p.c.p/b/*" ["p"; "p/b/*"] (Some (RReal 11)) false true;
+    NObj "p.b" true [("x", 8)];
+    NAlias "p.b.x" ["p"; "c"; "x"] (Some (RReal 5)) false false;
+    NAlias "p.p/b/*" ["p"; "b"; "p/b/*"] (Some (RReal 10)) false true;
+    NAlias "p.b.p/b/*" ["p"; "c"; "p/b/*"] (Some (RReal 6)) false true;
+    NAlias "p.p/b/*" ["p"; "b"] (Some (RReal 7)) false true;
+    NAlias "p.x" ["p"; "a"; "x"] (Some (RReal 3)) false false ].
+
+(* without unique_paths, "every stored link leads to an object" (targets_complete) does not make a resolved alias
+   dereferenceable: final_target reports a cycle that is not there (finding C06-F9); link_verdict names the gap *)
+Lemma unique_paths_needed :
+  wf w_dup_coll w_dup_heap = true /\ direct w_dup_coll w_dup_heap = true /\ no_passed w_dup_heap = true /\
+  targets_complete w_dup_heap = true /\ unique_paths w_dup_heap = false /\ chains_complete w_dup_heap = false /\
+  fst (ident_walk 28 w_dup_heap (RReal 1) []) = Some 3 /\
+  snd (deref_top w_dup_coll w_dup_heap 1) = Err ECyc /\
+  snd (deref_top w_dup_coll w_dup_heap 8) = Ok 3 /\
+  link_verdict w_dup_heap w_dup_heap 1 = "false-cycle" /\
+  link_verdict w_pre_heap (fst (resolve_aliases w_pre_coll w_pre_heap)) 7 = "preresolved".
+Proof. vm_compute. repeat split; auto. Qed.
+
+(* the invariant itself breaks: a successful resolve_target on a direct heap with complete chains but a duplicated path
+   leaves a heap whose chains are not complete any more (the new link of p.x leads through the detached p.x) *)
+Definition w_dup2_heap : heap :=
+  [ NObj "p" true [("x", 1); ("b", 2); ("f", 5)];
+    NAlias "p.x" ["p"; "b"; "x"] None false false;
+    NObj "p.b" true [("x", 3)];
+    NAlias "p.b.x" ["p"; "x"] (Some (RReal 4)) false false;
+    NAlias "p.x" ["p"; "f"] (Some (RReal 5)) false false;
+    NObj "p.f" false [] ].
+
+Lemma unique_paths_needed_for_invariance :
+  wf w_dup_coll w_dup2_heap = true /\ direct w_dup_coll w_dup2_heap = true /\ chains_complete w_dup2_heap = true /\
+  unique_paths w_dup2_heap = false /\
+  snd (resolve_top w_dup_coll w_dup2_heap 1) = Ok tt /\
+  chains_complete (fst (resolve_top w_dup_coll w_dup2_heap 1)) = false /\
+  snd (deref_top w_dup_coll (fst (resolve_top w_dup_coll w_dup2_heap 1)) 1) = Err ECyc.
+Proof. vm_compute. repeat split; auto. Qed.
